@@ -6,6 +6,7 @@
 package c20
 
 import (
+	"io"
 	"bufio"
 	"bytes"
 	"context"
@@ -46,11 +47,12 @@ type scen struct {
 	LastOp      int  // index of the last I/O op of an undisturbed handshake (filled from the dry run)
 	RealTLS     bool // wss through the library's own crypto/tls client against a real crypto/tls server peer
 	TLS12       bool // RealTLS: cap the server at TLS 1.2 (different flights than 1.3)
+	HeaderLen   int  // > 0: Dialer.Header of that many bytes (several header lines), so that connection writes happen inside the user's header writer
 }
 
 func (s scen) String() string {
-	return fmt.Sprintf("ctx=%s(deadline=%v) timeout=%v event=%s place=%s cancelAt=%v peer=%s chunks=%d delay=%v wbuf=%d tls=%v dialDelay=%v lastOp=%d realtls=%v tls12=%v",
-		s.CtxKind, s.CtxDeadline, s.Timeout, s.Event, s.Place, s.CancelAt, s.Peer, s.Chunks, s.ChunkDelay, s.WBuf, s.TLS, s.DialDelay, s.LastOp, s.RealTLS, s.TLS12)
+	return fmt.Sprintf("ctx=%s(deadline=%v) timeout=%v event=%s place=%s cancelAt=%v peer=%s chunks=%d delay=%v wbuf=%d tls=%v dialDelay=%v lastOp=%d realtls=%v tls12=%v headerLen=%d",
+		s.CtxKind, s.CtxDeadline, s.Timeout, s.Event, s.Place, s.CancelAt, s.Peer, s.Chunks, s.ChunkDelay, s.WBuf, s.TLS, s.DialDelay, s.LastOp, s.RealTLS, s.TLS12, s.HeaderLen)
 }
 
 type ctxKey struct{}
@@ -193,6 +195,21 @@ func runScenario(t *testing.T, s scen) (o outcome) {
 				return c, nil
 			},
 			TLSClient: func(cn net.Conn, host string) net.Conn { return tlsWrap{cn} },
+		}
+		if s.HeaderLen > 0 {
+			var hb strings.Builder
+			for hb.Len() < s.HeaderLen {
+				fmt.Fprintf(&hb, "X-Extra-%d: %s\r\n", hb.Len(), strings.Repeat("v", 70))
+			}
+			switch s.HeaderLen % 3 {
+			case 0:
+				d.Header = ws.HandshakeHeaderString(hb.String())
+			case 1:
+				d.Header = ws.HandshakeHeaderBytes(hb.String())
+			default:
+				text := hb.String()
+				d.Header = ws.HandshakeHeaderFunc(func(w io.Writer) (int64, error) { n, err := io.WriteString(w, text); return int64(n), err })
+			}
 		}
 		if s.RealTLS {
 			d.TLSClient = nil
@@ -534,6 +551,28 @@ func buildScenarios(t *testing.T) []scen {
 						s := base
 						s.CtxKind, s.CtxDeadline, s.Peer = ck, far, "non101"
 						scenList = append(scenList, s)
+					}
+				}
+			}
+		}
+		// I: a large Dialer.Header: the request no longer fits the write buffer, so connection writes happen inside the
+		// user's header writer; cancel before / after / with the watcher inside SetDeadline at every I/O operation
+		for _, hl := range []int{6000, 6001, 6002} {
+			for _, wbuf := range []int{4096, 512} {
+				base := scen{CtxKind: "withcancel", Event: "none", Peer: "responsive", Chunks: 1, WBuf: wbuf, HeaderLen: hl}
+				dry := runScenario(t, base)
+				k := dry.ops
+				base.LastOp = k - 1
+				scenList = append(scenList, base)
+				for i := 0; i < k; i++ {
+					for _, pl := range []string{"before", "after"} {
+						s := base
+						s.CtxKind, s.CtxDeadline, s.Event, s.Place = []string{"withcancel", "withdeadline"}[i%2], far, "cancel", fmt.Sprintf("%s:%d", pl, i)
+						scenList = append(scenList, s)
+						if i%3 == 0 {
+							s.Timeout = far
+							scenList = append(scenList, s)
+						}
 					}
 				}
 			}
